@@ -46,51 +46,51 @@ func (m *Model) ruleDSN(r *Results) {
 	// path through the helper
 	var scan func(g *ssa.Function, anchor *ssa.BasicBlock, anchorPos string, depth int)
 	scan = func(g *ssa.Function, anchor *ssa.BasicBlock, anchorPos string, depth int) {
-	m.eachCall(g, func(c ssa.CallInstruction) {
-		f := c.Common().StaticCallee()
-		if f == nil {
-			return
-		}
-		if m.inPkg(f) && depth < 2 && f != fn && len(f.Blocks) > 0 {
-			ab := anchor
-			if g == fn {
-				ab = c.Block()
-			}
-			scan(f, ab, m.instrPos(c), depth+1)
-			return
-		}
-		blockOf := func() *ssa.BasicBlock {
-			if g == fn {
-				return c.Block()
-			}
-			// inside a helper: the call must dominate the helper's returns
-			for _, ret := range returnsOf(g) {
-				if m.isFailureReturn(ret) {
-					continue
-				}
-				if !(c.Block() == ret.Block() || c.Block().Dominates(ret.Block())) {
-					return nil
-				}
-			}
-			return anchor
-		}
-		if f.Signature.Recv() != nil && isNamed(f.Signature.Recv().Type(), "net/url", "Values") && (f.Name() == "Add" || f.Name() == "Set") && len(c.Common().Args) == 3 {
-			k, ok1 := constString(c.Common().Args[1])
-			if !ok1 || !strings.HasPrefix(k, "_") {
+		m.eachCall(g, func(c ssa.CallInstruction) {
+			f := c.Common().StaticCallee()
+			if f == nil {
 				return
 			}
-			v, ok2 := constString(c.Common().Args[2])
-			if !ok2 {
-				v = "<dynamic>"
+			if m.inPkg(f) && depth < 2 && f != fn && len(f.Blocks) > 0 {
+				ab := anchor
+				if g == fn {
+					ab = c.Block()
+				}
+				scan(f, ab, m.instrPos(c), depth+1)
+				return
 			}
-			opts[k] = append(opts[k], opt{v, blockOf(), m.instrPos(c)})
-		}
-		if f.Signature.Recv() != nil && isNamed(f.Signature.Recv().Type(), "net/url", "Values") && f.Name() == "Del" && len(c.Common().Args) == 2 {
-			if k, ok := constString(c.Common().Args[1]); ok && strings.HasPrefix(k, "_") {
-				opts[k] = append(opts[k], opt{"<deleted>", blockOf(), m.instrPos(c)})
+			blockOf := func() *ssa.BasicBlock {
+				if g == fn {
+					return c.Block()
+				}
+				// inside a helper: the call must dominate the helper's returns
+				for _, ret := range returnsOf(g) {
+					if m.isFailureReturn(ret) {
+						continue
+					}
+					if !(c.Block() == ret.Block() || c.Block().Dominates(ret.Block())) {
+						return nil
+					}
+				}
+				return anchor
 			}
-		}
-	})
+			if f.Signature.Recv() != nil && isNamed(f.Signature.Recv().Type(), "net/url", "Values") && (f.Name() == "Add" || f.Name() == "Set") && len(c.Common().Args) == 3 {
+				k, ok1 := constString(c.Common().Args[1])
+				if !ok1 || !strings.HasPrefix(k, "_") {
+					return
+				}
+				v, ok2 := constString(c.Common().Args[2])
+				if !ok2 {
+					v = "<dynamic>"
+				}
+				opts[k] = append(opts[k], opt{v, blockOf(), m.instrPos(c)})
+			}
+			if f.Signature.Recv() != nil && isNamed(f.Signature.Recv().Type(), "net/url", "Values") && f.Name() == "Del" && len(c.Common().Args) == 2 {
+				if k, ok := constString(c.Common().Args[1]); ok && strings.HasPrefix(k, "_") {
+					opts[k] = append(opts[k], opt{"<deleted>", blockOf(), m.instrPos(c)})
+				}
+			}
+		})
 	}
 	scan(fn, nil, "", 0)
 	if openCall == nil {
@@ -488,7 +488,16 @@ func (m *Model) ruleHLCMARKSQL(r *Results) {
 	haveBucket, haveColl := false, false
 	for _, s := range m.markSites() {
 		if !extent[s.Fn] {
+			m.markOutsideAllocator(r, rule, s, nil)
 			continue
+		}
+		// a mark helper of the allocator must not also be called with some other CAS
+		if s.Fn != clos {
+			for _, c := range m.staticCallersOf(s.Fn) {
+				if !extent[c.Parent()] {
+					m.markOutsideAllocator(r, rule, s, c)
+				}
+			}
 		}
 		// frame: the closure itself, or the helper as called from the closure
 		fr := m.closureFrame(clos)
@@ -556,5 +565,29 @@ func (m *Model) ruleHLCMARKSQL(r *Results) {
 	}
 	if !haveColl {
 		r.bad(rule, "mark / collections", m.pos(clos.Pos()), "the allocator does not advance collections.lastCas (views cannot tell they are stale)")
+	}
+}
+
+// markOutsideAllocator: a statement that persists a high-water mark with a CAS that does not come
+// from the allocator (e.g. a caller-supplied CAS) must be monotone in SQL: lastCas = max(lastCas, ?).
+func (m *Model) markOutsideAllocator(r *Results, rule string, s *SQLSite, via ssa.CallInstruction) {
+	where := s.Fn
+	pos := m.instrPos(s.Call)
+	if via != nil {
+		where = via.Parent()
+		pos = m.instrPos(via)
+	}
+	for _, v := range s.Variants {
+		st := v.Stmt()
+		if st == nil || st.Kind != sqlp.SUpdate {
+			continue
+		}
+		w := writeInfo(st)
+		e, ok := w.Update["lastcas"]
+		if !ok {
+			continue
+		}
+		monotone := e.Kind == sqlp.EFunc && strings.EqualFold(e.Name, "max") && len(e.Args) == 2 && (isCol(e.Args[0], "lastCas") || isCol(e.Args[1], "lastCas"))
+		r.check(monotone, rule, "mark outside the allocator / "+m.declName(where)+" / "+st.Shape(), pos, "a mark written with a CAS that is not the allocator's only ever raises it (max)", "the persisted high-water mark is overwritten, outside the CAS allocator, with a CAS that need not be the largest handed out: the mark can move backwards and a reopened bucket can hand out a CAS twice")
 	}
 }
